@@ -103,7 +103,7 @@ func runC04S(k *kernel.K) {
 		n.Shutdown()
 		k.Settle()
 	}
-	scenario := []string{"slow_receiver", "silent_survivor", "quiet_start"}[w.Pick([]int{3, 2, 1})]
+	scenario := []string{"slow_receiver", "silent_survivor", "quiet_start", "late_reply"}[w.Pick([]int{3, 2, 1, 3})]
 	k.Probe("c04s_" + scenario)
 	switch scenario {
 	case "quiet_start":
@@ -146,6 +146,45 @@ func runC04S(k *kernel.K) {
 		k.Drain()
 		if !bytes.Equal(got.Bytes(), data) {
 			k.Fail("C04.all_delivered", map[string]string{"dir": dir, "scenario": scenario}, "the sender wrote %d bytes at once and stayed open; the receiver's transport took %d bytes every %v (proxy timeout %v): %d bytes arrived, in order: %v, the receiver saw end-of-stream: %v", len(data), per, timeout/3, timeout, got.Len(), bytes.HasPrefix(data, got.Bytes()), *rcvEOF)
+		}
+	case "late_reply":
+		// One end says what it has to say and finishes its direction (half-close); the other end
+		// reads that, thinks for a while - seconds to a good part of the timeout - and only then
+		// answers and closes. Everything it writes has to arrive, then the end-of-stream.
+		first, second, firstName := cl, tg, "client"
+		got, gotEOF, sawEOF := &clRecv, &clEOF, &tgEOF
+		base := clRecv.Len()
+		if w.Chance(1, 3) {
+			first, second, firstName = tg, cl, "target"
+			got, gotEOF, sawEOF = &tgRecv, &tgEOF, &clEOF
+			base = tgRecv.Len()
+		}
+		first.Inject([]byte("question"))
+		k.Drain()
+		first.CloseWrite()
+		k.Drain()
+		if !*sawEOF {
+			k.Fail("C04.eof_propagation", map[string]string{"closer": firstName, "scenario": scenario}, "%s wrote 8 bytes and finished its direction (half-close); the other end has not seen the end-of-stream at quiescence", firstName)
+			break
+		}
+		pause := []time.Duration{3 * time.Second, 20 * time.Second, timeout / 2, timeout - 5*time.Second}[w.Draw(4)]
+		k.Advance(pause)
+		k.Drain()
+		reply := bodyBytes(2, 'a', 1+w.Draw(20000))
+		second.Inject(reply)
+		k.Drain()
+		if w.Chance(1, 2) {
+			// ... in two instalments
+			k.Advance(pause / 2)
+			more := bodyBytes(3, 'b', 1+w.Draw(5000))
+			second.Inject(more)
+			reply = append(append([]byte(nil), reply...), more...)
+			k.Drain()
+		}
+		second.Close()
+		k.Drain()
+		if !bytes.Equal(got.Bytes()[base:], reply) || !*gotEOF {
+			k.Fail("C04.all_delivered", map[string]string{"dir": "reply_after_half_close", "scenario": scenario}, "%s finished its direction first; the other end answered %v later (proxy timeout %v) with %d bytes and closed: %d bytes arrived (in order: %v), end-of-stream seen: %v", firstName, pause, timeout, len(reply), got.Len()-base, bytes.HasPrefix(reply, got.Bytes()[base:]), *gotEOF)
 		}
 	case "silent_survivor":
 		cl.Inject([]byte("hello"))
